@@ -1,4 +1,5 @@
 import MemcVerif.Proofs.Frames
+import MemcVerif.Proofs.TablesTie
 /-!
 # C12 — pipelining: in-order execution, one response per loud request, quiet rules, quit rules
 
@@ -106,6 +107,15 @@ theorem C12_pipeline_order (limit : Nat) (frames : List (Bytes × ReqHeader))
 
 example : loudReq (.notSupported ⟨0x80, 0x1c, 0, 0, 0, 0, 0, 5, 0⟩) = true := by decide
 
+/-! ## the opcode table of this property is the source's (regenerated from /repo on every run: `tools/gentables.py`) -/
+
+/-- which opcodes exist, which are executed by which parser and which are answered 'not supported' (every known opcode
+    gets an answer): the model's `opGroup` is `parse_request`'s dispatch as it is now -/
+theorem C12_dispatch_is_the_sources :
+    Holds Gen.opcodes (fun os => Holds Gen.dispatch (fun t => os = t.map (·.1))) ∧
+    Holds Gen.dispatch (fun t => t.all (fun p => (opGroup p.1).idx == p.2) = true) :=
+  ⟨tie_opcodes, tie_dispatch⟩
+
 end Memc
 
 #print axioms Memc.C12_in_order
@@ -117,3 +127,4 @@ end Memc
 #print axioms Memc.C12_nothing_after_close
 #print axioms Memc.C12_closed_ignores_input
 #print axioms Memc.C12_pipeline_order
+#print axioms Memc.C12_dispatch_is_the_sources
